@@ -37,8 +37,10 @@ Definition old_pool_id (s : settings) : string :=
 (* a tls.Config as far as trust goes *)
 Record tlsconf := { tc_extra_ca : option string (* RootCAs = system roots + this PEM; None = system roots only *);
                     tc_insecure : bool }.
+(* a PEM text may hold several certificates (a bundle, written "X+Y" in the symbolic contents the harness uses): every one
+   of them is trusted *)
 Definition trusts (t : tlsconf) (ca : string) : bool :=
-  tc_insecure t || match tc_extra_ca t with Some pem => String.eqb pem ca | None => false end.
+  tc_insecure t || match tc_extra_ca t with Some pem => existsb (String.eqb ca) (split_on "+"%char pem) | None => false end.
 
 (* a watcher is registered under (pool id of the settings, path) - the path is part of the pool id - and its callback
    is updateCA(pool id, new content), which looks the pooled object up when it fires *)
